@@ -26,6 +26,9 @@ type Cmd struct {
 }
 
 type LifePlan struct {
+	// Extras: additional listening peers whose addresses are added with every addpeer command
+	// (more addresses than MaxPeerDial slots keep the client's address list non-empty).
+	Extras int           `json:"extras,omitempty"`
 	Layout gen.Layout    `json:"layout"`
 	K      Knobs         `json:"knobs"`
 	Net    simnet.Config `json:"net"`
@@ -50,13 +53,14 @@ type LifePlan struct {
 }
 
 type lifeWorld struct {
-	env  *Env
-	plan *LifePlan
-	T    *gen.Torrent
-	sut  *Node
-	tor  *torrent.Torrent
-	dir  string
-	seed *PeerActor
+	env    *Env
+	plan   *LifePlan
+	T      *gen.Torrent
+	sut    *Node
+	tor    *torrent.Torrent
+	dir    string
+	extras []*PeerActor
+	seed   *PeerActor
 
 	mu             sync.Mutex
 	tainted        map[int]bool // pieces whose content was silently changed since the last verification
@@ -282,6 +286,16 @@ func RunLifecycle(env *Env, plan *LifePlan) {
 	lst.Start()
 	env.Net.SetDNS("seed.example", simnet.DNSEntry{IPs: []simnetIP{parseIP(lst.Host.IP)}, Delay: 20 * time.Millisecond})
 	w.seed.Start()
+	// more addresses than dial slots: slow honest listeners handed over together with seedl
+	for i := 0; i < plan.Extras; i++ {
+		b := plan.Seed.B
+		b.ServeDelay = [2]time.Duration{100 * time.Millisecond, 2 * time.Second}
+		x := &PeerActor{Spec: PeerSpec{Name: fmt.Sprintf("xl%d", i), B: b, Mode: "listen"}, Host: env.NewHost(fmt.Sprintf("xl%d", i), "peer"), T: T, Seed: env.R.Uint64(), Lim: w.seed.Lim}
+		x.Hooks = w.seed.Hooks
+		x.Listen()
+		x.Start()
+		w.extras = append(w.extras, x)
+	}
 
 	// monitor
 	stopMon := make(chan struct{})
@@ -446,6 +460,9 @@ func (w *lifeWorld) doCmd(c Cmd, next time.Duration, lst *PeerActor) bool {
 		w.api("Announce", func() { w.tor.Announce() })
 	case "addpeer":
 		w.api("AddPeer", func() { w.tor.AddPeer(lst.Addr) })
+		for _, x := range w.extras {
+			w.api("AddPeer", func() { w.tor.AddPeer(x.Addr) })
+		}
 	case "addpeer_host":
 		w.api("AddPeer", func() { w.tor.AddPeer(fmt.Sprintf("seed.example:%d", 6881)) })
 	case "addtracker":
@@ -661,27 +678,33 @@ func (w *lifeWorld) crash(at, del string) {
 			real = append(real, w.dir+"/"+T.FileRel(fi))
 		}
 	}
+	var deleted []string
 	switch del {
 	case "del_all":
 		for _, p := range real {
 			img.Delete(p)
+			deleted = append(deleted, p)
 		}
 	case "del_some":
 		for _, p := range real {
 			if r.Bool() {
 				img.Delete(p)
+				deleted = append(deleted, p)
 			}
 		}
 	}
+	// Files were lost: half of the time the restarted session crashes again as soon as it has
+	// recreated one of them (a third session then finds the files in place).
+	again := len(deleted) > 0 && r.Bool()
 	// run the post-crash check on its own goroutine: we are inside a disk write gate here
 	w.crashWG.Add(1)
 	go func() {
 		defer w.crashWG.Done()
-		w.postCrash(n, img, db)
+		w.postCrash(n, img, db, deleted, again)
 	}()
 }
 
-func (w *lifeWorld) postCrash(n int, img *simfs.FS, db string) {
+func (w *lifeWorld) postCrash(n int, img *simfs.FS, db string, deleted []string, again bool) {
 	env := w.env
 	T := w.T
 	host := env.NewHost(fmt.Sprintf("sut-r%d", n), "sut")
@@ -702,6 +725,33 @@ func (w *lifeWorld) postCrash(n int, img *simfs.FS, db string) {
 	}
 	dir := node.TorrentDir("tt")
 	node.In(func() { tor.Start() })
+	if again {
+		w.crashWG.Add(1)
+		go func() {
+			defer w.crashWG.Done()
+			r := env.R.Fork()
+			delay := r.Dur(0, 20*time.Millisecond)
+			for i := 0; i < 20000; i++ {
+				back := false
+				for _, p := range deleted {
+					if _, ok := img.Get(p); ok {
+						back = true
+					}
+				}
+				if back {
+					break
+				}
+				time.Sleep(time.Millisecond)
+			}
+			time.Sleep(delay)
+			img2 := img.CrashImage(fmt.Sprintf("crash%d-again", n), r, 0.3)
+			db2 := node.CopyDB(fmt.Sprintf("crash%d-again", n))
+			simrt.Count("fault.crash_again", 1)
+			simrt.Logf("crash snapshot %d: second crash %v after a lost file was recreated", n, delay)
+			env.SigAdd("crash-again@%d", n)
+			w.postCrash(n+10, img2, db2, nil, false)
+		}()
+	}
 	// an observer peer learns exactly which pieces the restarted session claims
 	obs := &PeerActor{Spec: PeerSpec{Name: fmt.Sprintf("obs%d", n), Mode: "dial", Redial: 2 * time.Second,
 		B: refbt.Behavior{Fast: true, Ext: true, NeverUnchoke: true, Announce: "auto"}}, Host: env.NewHost(fmt.Sprintf("obs%d", n), "observer"), T: T, Seed: env.R.Uint64()}
@@ -787,6 +837,10 @@ func genLifeBase(r *simrt.Rand, tier string) *LifePlan {
 		lp.TrackerDelay = simrt.Pick(r, []time.Duration{0, 200 * time.Millisecond, 3 * time.Second, 20 * time.Second})
 	}
 	lp.PreSeeded = r.Chance(0.25)
+	if r.Chance(0.3) {
+		lp.Extras = r.Range(1, 4)
+		lp.K.MaxPeerDial = r.Range(1, 2)
+	}
 	return lp
 }
 
